@@ -7,12 +7,13 @@ ASSUMPTIONS = ['each shared access between two synchronisation calls is atomic (
 
 
 def main(tier, seed, replay=None):
-    ck, ok = CC.run_property("C18", tier, seed, replay, ['subchannel', 'subchannel', 'subchannel_dropped', 'produce', 'consume', 'consume_eof', 'status', 'both_drop_cb'], lambda s: s.startswith(('channel-id-parity', 'subchannel-', 'channel-over-channel', 'channel-over-dropped-carrier', 'channel-tables-not-back', 'channel-id-handed-out-twice')), None, ASSUMPTIONS, extra=EXTRA)
+    ck, ok = CC.run_property("C18", tier, seed, replay, ['subchannel', 'subchannel', 'subchannel_dropped', 'produce', 'consume', 'consume_eof', 'status', 'both_drop_cb'], lambda s: s.startswith(('channel-id-parity', 'subchannel-', 'channel-over-channel', 'channel-over-dropped-carrier', 'channel-tables-not-back', 'channel-id-handed-out-twice', 'reconfigure-')), None, ASSUMPTIONS, extra=EXTRA)
     try:
         from props import chan_model
 
         chan_model.correspondence(ck, ok, "C18", tier, replay)
         chan_model.ids_correspondence(ck, ok, tier, replay)
+        chan_model.reconf_correspondence(ck, ok, tier, replay)
     except ImportError:
         pass
     return ck.finish(rule='programs where both sides create channels concurrently (remote_exec, newchannel on the worker and on the initiator), channels travel over channels in both directions and every conversation is closed; afterwards the channel and callback tables of both gateways must be empty; random/PCT schedules with line-level preemption.')
